@@ -115,6 +115,7 @@ theorem exec_active_params (pr : Params) (i : Nat) (p : Prog) (s : St)
         cases hta : t.active with
         | none => simp [hta] at h1
         | some a0 => simp only [hta, Option.map_some, Option.some.injEq] at h1; subst h1; exact h a0 hta)
+    (by intro t b h a h1; exact h a (doSetEnabled_of_active h1).2)
     p s h
 
 /-- a class that ignores forcing never gets the force flag set -/
@@ -189,6 +190,12 @@ theorem exec_ignore_force (p : Prog) (s : St) (hf : s.forced = false)
         cases hta : t.active with
         | none => simp [hta] at h1
         | some a0 => simp only [hta, Option.map_some, Option.some.injEq] at h1; subst h1; exact h.2 a0 hta)
+    (by
+      intro t b h
+      refine ⟨?_, fun a h1 => h.2 a (doSetEnabled_of_active h1).2⟩
+      have := h.1
+      unfold doSetEnabled doDiscard
+      split <;> (try split) <;> simp_all [resetActive, addLog])
     p s ⟨hf, h⟩
   exact this.1
 
@@ -399,6 +406,7 @@ theorem exec_no_op_output (ao : AliasOracle) (p : Prog) (hwf : p.AliasesWF ao) (
         | some a0 =>
           simp only [hta, Option.map_some, Option.some.injEq] at h1; subst h1
           simpa [hasOpOutput] using h2 a0 hta)
+    (by intro t b h a h1; exact h a (doSetEnabled_of_active h1).2)
     p hwf s h
 
 /-- whether the recording handed to the `finally` block holds the operation output -/
